@@ -51,6 +51,13 @@ Definition frun_op (k : fkb) (roots : list nat) (s : fstate) (op : sx) : fstate 
   | L [A 10] => let s' := f_flush reg s in (s', L [efstate n s'])
   | L [A 11; i; w] => let s' := f_reset_world s (dnat i) (dbnd w) in (s', L [efstate n s'])
   | L [A 14] => (s, L [eq_ (Qred (f_contradiction_loss k reg s))])
+  | L [A 17; labs] =>   (* labels per object -> per object: (sum of squared errors, labelled rows present) or -1 *)
+      let lab := dlist (fun x => match x with L [i; d] => (dnat i, ddata d) | _ => (0%nat, []) end) labs in
+      let of_obj i := flat_map (fun e => if Nat.eqb (fst e) i then snd e else []) lab in
+      (s, L (map (fun i => match f_supervised_loss s i (of_obj i) with
+                           | None => A (-1)
+                           | Some _ => L [eq_ (Qred (f_sse s i (of_obj i))); enat (length (f_labelled s i (of_obj i)))]
+                           end) (seq 0 n)))
   | L [A 12; i; g] => (s, L [ebnd (fget s (dnat i) (dgnd g)); efstate n s])
   | _ => (s, bad)
   end.
